@@ -505,6 +505,14 @@ int stream_main(const vf::Args &a)
       StreamPlan p3; // would-block first, then everything
       p3.write_plan = { 0 };
       plans.push_back(p3);
+      // the same with EINPROGRESS instead of would-block (a send while the handshake is still in flight), also after a
+      // few accepted bytes
+      for (int k : { 0, 1, 5, 17 }) {
+        StreamPlan p5;
+        if (k) p5.write_plan.push_back(k);
+        p5.write_plan.push_back(-2);
+        plans.push_back(p5);
+      }
       StreamPlan p4; // one byte, would-block, one byte, would-block ...
       for (size_t k = 0; k < QL + 4; k++) {
         p4.write_plan.push_back(1);
